@@ -4,6 +4,7 @@ import (
 	"context"
 	"errors"
 	"fmt"
+	"time"
 
 	"github.com/alephium/wormhole-fork/node/pkg/zzverif"
 	"go.uber.org/zap"
@@ -12,11 +13,20 @@ import (
 func verifSup() *supervisor {
 	s := &supervisor{logger: zap.NewNop(), ilogger: zap.NewNop(), pReq: make(chan *processorRequest, 32)}
 	s.root = newNode("root", nil, s, nil)
+	verifFastBackoff(s.root)
 	return s
+}
+
+// back-off durations are arbitrary in the model; natively they are cut to about 1 ms so that Settle sees the reschedule
+func verifFastBackoff(n *node) {
+	n.bo.InitialInterval = time.Millisecond
+	n.bo.MaxInterval = time.Millisecond
+	n.bo.Reset()
 }
 
 func verifAdd(s *supervisor, parent *node, name string, group int) *node {
 	c := newNode(name, nil, s, parent)
+	verifFastBackoff(c)
 	parent.children[name] = c
 	for len(parent.groups) <= group {
 		parent.groups = append(parent.groups, map[string]bool{})
